@@ -70,6 +70,40 @@ CHECKS = {
         "design_ref": "DESIGN.md §3 C11",
         "note": "L1(d) compile-fail witnesses are in /verif/witness (thorough tier).",
     },
+    "C08": {
+        "technique": "join of the renderer table (variant -> translator method -> SQL spelling, from type-resolved MIR switch/const facts) with the reader table (SQL name -> operator, from the syn AST); positional slot tables of the CTE renderer; oracle table of standard SQL names",
+        "level": "Decides, for every operator the SQL reader can produce, that it is rendered without abort (E3) under a spelling the reader maps back to the same operator (E4), that standard SQL names have their standard meaning (E5), that every component of a relation node and every alias is rendered "
+                 "inside the node's CTE (E7, E8), that operator operands are parenthesised (E9) and that GROUP BY prefers input columns over aliases (E10). Execution on databases, name resolution as a whole and the Map/Reduce split are not decided.",
+        "design_ref": "DESIGN.md §3 C08",
+        "note": "Trusted: sqlparser parses NAME(args) into a Function node of that name (keyword functions listed); operators map to same-named ast operators.",
+    },
+    "C12": {
+        "technique": "arm-table parity of super_image / value over the syn AST, must-pass-through of the checked_* guards, MIR cast facts with dominating round-trip tests, reviewed table of the 14 primitive pairs",
+        "level": "Decides set/value parity of the 24 dispatching injections (J1), that primitive values and images go through the checked guards (J2), that lossy numeric casts are dominated by a round-trip test (J3), and that narrowing / non-monotone conversions can refuse and only map single values (J4). "
+                 "Injectivity of format!-based renderings and composite liftings over all values are not decided.",
+        "design_ref": "DESIGN.md §3 C12",
+        "note": "Trusted: the reviewed classification of primitive pairs (PAIRS in qv/c12.py); a new pair is UNDECIDED.",
+    },
+    "C14": {
+        "technique": "audit of the bijection list against a reviewed injective table, decision-term extraction of Reduce::schema_aggregate, flag pairing in Join::schema, who-may-attach-a-constraint inventory (syn AST)",
+        "level": "Decides that uniqueness is only propagated through functions reviewed as injective (U1), that a group key's UNIQUE depends on the grouping (U2), that join constraints are kept under the other side's key uniqueness with both sides involved (U3), that Values is UNIQUE only when literals are distinct (U4) and that no other site attaches constraints (U0).",
+        "design_ref": "DESIGN.md §3 C14",
+        "note": "Trusted: base tables honour their constraints; floating-point collisions of exp/ln/sqrt and md5 collisions accepted by the reviewed table.",
+    },
+    "C15": {
+        "technique": "simulation of the Found fold and of the Found->Option conversion on all states, call-order/arm tables of Hierarchy lookups, arm table of USING/NATURAL coalescing (syn AST)",
+        "level": "Decides that ambiguity is absorbing and only a single suffix match yields a result (H1), that the exact lookup precedes the suffix search and every accessor goes through it over an ordered map (H2), the suffix predicate (H3) and that USING coalesces only the listed columns (H4). "
+                 "The lookup law over all maps/paths and which column sets reach the lookup from SQL are not decided as a whole.",
+        "design_ref": "DESIGN.md §3 C15",
+        "note": "Restructured folds fail closed (UNDECIDED).",
+    },
+    "C17": {
+        "technique": "per-translator renderer tables from the MIR (override or default, abort analysis, SQL spelling constants) joined with each dialect's reader table from the AST; dialect pairing; quote characters evaluated against sqlparser's own dialect source",
+        "level": "Decides for the eight translators that every operator in scope is rendered without abort (E3d), under a spelling the same dialect's reader knows (E4d), that each translator reads with its own sqlparser dialect (E5d), quotes identifiers with a character that dialect accepts (E6), and the shared rendering rules E7-E9. "
+                 "Acceptance by the real engines and per-engine semantics are not decided.",
+        "design_ref": "DESIGN.md §3 C17",
+        "note": "Trusted: sqlparser source in the cargo registry at the version pinned by /repo/Cargo.lock.",
+    },
     "C02": {
         "technique": "exhaustive table proof over the syn AST: label-lattice invariants of every RewritingRule row, pattern-match simulation of the Rewriter dispatch, acceptance sets, who-may-call",
         "level": "Exhaustive over the finite rule table: every RewritingRule::new row satisfies the non-interference invariants (T1), is dispatched by the Rewriter to the mechanism it names and never to the pass-through arm when it outputs PUP/DP (T2), "
